@@ -1,0 +1,61 @@
+//! Verification hooks (compiled only with `--cfg daachorse_verif`).
+//!
+//! Thread-local counters of the table probes and fail-link hops performed by the transition
+//! functions, and a per-call hop limit turning a fail-link cycle into a panic instead of a hang.
+
+extern crate std;
+
+use core::cell::Cell;
+
+std::thread_local! {
+    static PROBES: Cell<u64> = const { Cell::new(0) };
+    static HOPS: Cell<u64> = const { Cell::new(0) };
+    static CALL_HOPS: Cell<u64> = const { Cell::new(0) };
+    static HOP_LIMIT: Cell<u64> = const { Cell::new(u64::MAX) };
+}
+
+/// Message of the panic raised when the hop limit is exceeded.
+pub const HOP_LIMIT_MESSAGE: &str = "daachorse_verif: fail-link hop limit exceeded";
+
+/// Resets both counters of the current thread.
+pub fn reset() {
+    PROBES.with(|c| c.set(0));
+    HOPS.with(|c| c.set(0));
+}
+
+/// Returns `(probes, hops)` counted on the current thread since the last [`reset`].
+#[must_use]
+pub fn counters() -> (u64, u64) {
+    (PROBES.with(Cell::get), HOPS.with(Cell::get))
+}
+
+/// Sets the maximum number of fail-link hops a single transition may take on this thread.
+pub fn set_hop_limit(limit: u64) {
+    HOP_LIMIT.with(|c| c.set(limit));
+}
+
+#[inline(always)]
+pub(crate) fn enter() {
+    CALL_HOPS.with(|c| c.set(0));
+}
+
+#[inline(always)]
+pub(crate) fn probe() {
+    PROBES.with(|c| c.set(c.get() + 1));
+}
+
+#[inline(always)]
+pub(crate) fn hop() {
+    HOPS.with(|c| c.set(c.get() + 1));
+    let n = CALL_HOPS.with(|c| {
+        c.set(c.get() + 1);
+        c.get()
+    });
+    assert!(n <= HOP_LIMIT.with(Cell::get), "{}", HOP_LIMIT_MESSAGE);
+}
+
+#[inline(always)]
+pub(crate) fn restore(probes: u64, hops: u64) {
+    PROBES.with(|c| c.set(probes));
+    HOPS.with(|c| c.set(hops));
+}
